@@ -204,3 +204,17 @@ Definition constitution_iso (m1 m2 : mol) (phi : list nat) : Prop :=
   (forall i, i < length (m_atoms m1) -> label_eqb m1 m2 i (nth i phi 0) = true) /\
   (forall i k, i < length (m_atoms m1) -> k < i ->
      bond_class (bond_between m1 k i) = bond_class (bond_between m2 (nth k phi 0) (nth i phi 0))).
+
+(* the same molecule except, possibly, for the stereo marks of the atoms (of m1) that satisfy [ok] *)
+Definition same_except_at (m1 m2 : mol) (ok : nat -> bool) : bool :=
+  let a := strip_h m1 in let b := strip_h m2 in
+  existsb (fun phi => forallb (fun d => ok (fst d) || diff_void a b phi d) (stereo_profile a b phi)) (all_isos a b).
+
+(* the same constitution, with opposite configuration at exactly the atoms (of m1) that satisfy [at_], equal elsewhere *)
+Definition inverted_exactly_at (m1 m2 : mol) (at_ : nat -> bool) : bool :=
+  let a := strip_h m1 in let b := strip_h m2 in
+  existsb (fun phi =>
+             forallb (fun i => let d := stereo_at a b phi i in
+                               if at_ i then sdiff_eqb d SOpposite
+                               else sdiff_eqb d SSame || diff_void a b phi (i, d))
+                     (seq 0 (length (m_atoms a)))) (all_isos a b).
